@@ -159,7 +159,7 @@ PROPS = {
                      "'resolved', 'resolved <v>' does"],
     ),
     "C16": dict(
-        units=["ids", "oplogflag"],
+        units=["ids", "oplogflag", "rotation"],
         undecided=["kills INSIDE one file operation (a torn key-map file, a half-written oplog record) and writes that reach the disk out of program order (no fsync anywhere): the "
                    "crash invariant of unit oplogflag is stated at the granularity of whole file operations, between any two of which the node may be killed",
                    "the start-up decision itself (bin/main.rs: flag 0 => clean metadata => since 0) and that the Databases value is built with the flag read from disk (in_sync at start)",
